@@ -276,7 +276,7 @@ class Verdict:
             os.makedirs(rdir, exist_ok=True)
             path = os.path.join(rdir, "%s-%d-%d.json" % (cls.replace("/", "_"), seed(), i))
             with open(path, "w") as fh:
-                json.dump({"property": self.prop, "class": cls, "witness": w, "replay": ro}, fh, indent=1)
+                json.dump({"property": self.prop, "class": cls, "seed": seed(), "tier": self.tier, "witness": w, "replay": ro}, fh, indent=1)
             print("VIOLATION property=%s replay=%s" % (self.prop, path))
             print("  class=%s witness=%s" % (cls, json.dumps(w)[:600]))
         ev = {
